@@ -165,6 +165,27 @@ func VerifC02_String() {
 	verifReach("C02/string/end")
 }
 
+// strings with multi-byte characters: every entry point must measure length the same way (bytes, as len does)
+func VerifC02_StringMultibyte() {
+	min, max := verifOptInt64("min"), verifOptInt64("max")
+	s := NewStringSchema(min, max, nil)
+	raw := nondetStringFrom("raw", "", "a", "é", "éé", "héé", "日本", "aaaa", "a\u00e9b", "\U0001F600")
+	n := int64(len(raw))
+	spec := specInRangeInt(n, min, max)
+	_, err := s.Unserialize(raw)
+	verifAssert("C02/mbstring/unserialize-accepts-iff-spec", vIff(err == nil, spec))
+	verifAssert("C02/mbstring/validate-iff-spec", vIff(s.Validate(raw) == nil, spec))
+	_, serr := s.Serialize(raw)
+	verifAssert("C02/mbstring/serialize-iff-spec", vIff(serr == nil, spec))
+	verifAssert("C02/mbstring/validatetype-iff-spec", vIff(s.ValidateType(raw) == nil, spec))
+	_, sterr := s.SerializeType(raw)
+	verifAssert("C02/mbstring/serializetype-iff-spec", vIff(sterr == nil, spec))
+	verifObserve("accepted", err == nil)
+	verifReach("C02/mbstring/end")
+}
+
+func init() { verifRegister("VerifC02_StringMultibyte", VerifC02_StringMultibyte) }
+
 var verifPatAB = regexp.MustCompile("^a+b?$")
 
 func VerifC02_StringPattern() {
